@@ -11,7 +11,19 @@ S_ALL = [
     "maz.filter_map_concat is replaced by its assumed contract on abstract sequences (the real maz source runs otherwise)",
 ]
 
+def only(*names):
+    return lambda h: h.name in names
+
+
 PROPERTIES = {
+    "C07": {
+        "harness_modules": ["contracts.assume"],
+        "harness_filter": only("AtLeast.assume", "variable.assume", "lemma.ival_wf", "lemma.refine"),
+        "level": "proof",
+        "assumptions": S_ALL,
+        "explanation": "AtLeast.assume / variable.assume (real source) against post.c07: for every further interpretation e of "
+                       "the remaining leaves, ival(assume(d), e) == ival(self, d|e); plus the spec lemmas it uses.",
+    },
     "C05": {
         "harness_modules": ["contracts.c05"],
         "level": "proof",
